@@ -435,21 +435,21 @@ def run(fx, tier):
                     'modification and before it is dereferenced',
                     key='C19:R-DEREF:%s::parse' % f.cls, where='%s:%d' % (f.path_file(), line))
         if f.cls == 'prop_parser':
-            ok = False
-            for b in f.blocks:
-                blk = f.blocks[b]
-                cond = f.term_cond(b) if blk.term else None
-                if cond is None:
-                    continue
-                cm = comparison(f.resolve(cond), 'T')
-                if cm and cm[0] == '==':
-                    names = {core(cm[1]).get('n') if isinstance(core(cm[1]), dict) else None,
-                             core(cm[2]).get('n') if isinstance(core(cm[2]), dict) else None}
-                    if names == {'iter', 'saved'} and blk.succ[0] is not None:
-                        tb = f.blocks[blk.succ[0]]
-                        ok = any(isinstance(e, dict) and e.get('k') == 'ret' for e in tb.elems)
-            v.check(ok, 'R-PROGRESS', 'prop_parser::parse%s' % f.inst(),
-                    'an iteration that consumed no byte of the property value makes the parser fail',
+            import c18
+            from flow import defs_of as _defs_of
+            first = [p_ for p_ in f.params if p_.get('n') == 'first']
+            ao = [(b, i, c) for b, i, l, c in f.calls() if callee_name(c) == 'apply_on']
+            cur = None
+            for d, init in _defs_of(f).decl.items():
+                i0 = f.resolve(init) if isinstance(init, dict) else None
+                if isinstance(i0, dict) and i0.get('k') == 'ctor' and i0.get('copy') and first and c18._is(i0['args'][0], first[0]['d']):
+                    cur = d
+            if cur is None or len(ao) != 1:
+                raise AnalysisBroken('prop_parser::parse: cursor / dispatch not found')
+            a = ao[0][2].get('args', [])
+            lam = strip(a[1]) if len(a) > 1 else None
+            ok, why = c18.unknown_id_rejected(fx, f, cur, None, ao[0], lam)
+            v.check(ok, 'R-PROGRESS', 'prop_parser::parse%s' % f.inst(), why,
                     key='C19:R-PROGRESS:prop_parser::parse', where=f.file)
 
     # ------------------------------------------------------------------ R-CGRAPH
